@@ -761,3 +761,219 @@ pub fn judge_run(run: &ConfigRun, cx: &mut Cx) -> Res {
     }
     Ok(())
 }
+
+// ---------------------------------------------------------------------------------------------
+// concurrent discards: "it is dropped and the discard counter increases by one" holds per event, so after
+// any number of threads have emitted and JOINED the counter equals the number of dropped events exactly
+
+/// what one droppable event looks like (all of them are dropped when logs is not configured and their
+/// kind's signal cannot take them)
+#[derive(Serialize, Deserialize, Debug, Clone, Copy, PartialEq)]
+pub enum DropShape {
+    /// no kind: only the fallback could take it
+    NoKind,
+    /// span kind with a point extent: fails the traces qualification
+    SpanWithoutRange,
+    /// metric kind with a text value: fails the metrics qualification
+    MetricWithoutNumber,
+    /// unknown kind text
+    UnknownKind,
+}
+
+impl DropShape {
+    pub fn spec(self) -> EventSpec {
+        let (kind, extent, value) = match self {
+            DropShape::NoKind => (KindSpec::Absent, ExtentSpec::Point { secs: 1 }, ValueSpec::Missing),
+            DropShape::SpanWithoutRange => (KindSpec::Typed { span: true }, ExtentSpec::Point { secs: 1 }, ValueSpec::Missing),
+            DropShape::MetricWithoutNumber => (KindSpec::Typed { span: false }, ExtentSpec::Point { secs: 1 }, ValueSpec::Text("n/a".into())),
+            DropShape::UnknownKind => (KindSpec::Text("custom".into()), ExtentSpec::None, ValueSpec::I64(1)),
+        };
+        EventSpec {
+            kind,
+            extent,
+            value,
+            agg: AggSpec::Absent,
+            capture: Capture::Sval,
+            extras: vec![],
+            kind_last: false,
+            kind_repr: KindRepr::Live,
+            buffering: Buffering::None,
+        }
+    }
+}
+
+#[derive(Serialize, Deserialize, Debug, Clone, PartialEq)]
+pub struct ThreadPlan {
+    pub shape: DropShape,
+    /// how many events of `shape` this thread emits in a tight loop
+    pub drops: u32,
+    /// exportable events (a qualified span when `true`, a qualified metric sample when `false`) emitted
+    /// before, in the middle of and after the loop
+    pub exports: Vec<bool>,
+}
+
+#[derive(Serialize, Deserialize, Debug, Clone, PartialEq)]
+pub struct ConcurrentCase {
+    /// bit 1 traces, bit 2 metrics; logs is never configured here
+    pub subset: u8,
+    pub wire: Wire,
+    pub threads: Vec<ThreadPlan>,
+}
+
+fn export_spec(span: bool) -> EventSpec {
+    EventSpec {
+        kind: KindSpec::Typed { span },
+        extent: ExtentSpec::Range { secs: 5, len_ms: 250 },
+        value: if span { ValueSpec::Missing } else { ValueSpec::I64(7) },
+        agg: AggSpec::Absent,
+        capture: Capture::Sval,
+        extras: vec![],
+        kind_last: false,
+        kind_repr: KindRepr::Live,
+        buffering: Buffering::None,
+    }
+}
+
+pub fn check_concurrent(case: &ConcurrentCase, cx: &mut Cx) -> Result<Result<(), String>, vcore::Fail> {
+    let cfg = Config::uniform(case.subset & 0b110, case.wire);
+    let c = match Collector::try_start() {
+        Ok(c) => c,
+        Err(e) => return Ok(Err(e)),
+    };
+    if matches!(case.wire, Wire::GrpcProto | Wire::GrpcProtoGzip) {
+        if let Err(e) = c.ensure_grpc() {
+            return Ok(Err(e));
+        }
+    }
+    let otlp = build_otlp(&c, &cfg);
+
+    // the reference, per event, BEFORE anything runs: what must be dropped, what must arrive where
+    let mut expected_drops = 0usize;
+    let mut expected_exports: BTreeMap<u64, Route> = BTreeMap::new();
+    let mut dropping_threads = 0;
+    for (ti, t) in case.threads.iter().enumerate() {
+        let m = model(&cfg, &t.shape.spec());
+        if m.allowed != [Route::Dropped] {
+            return Ok(Err(format!("harness: drop shape {:?} is not decisively dropped under {cfg:?}", t.shape)));
+        }
+        expected_drops += t.drops as usize;
+        if t.drops > 0 {
+            dropping_threads += 1;
+        }
+        for (i, span) in t.exports.iter().enumerate() {
+            let m = model(&cfg, &export_spec(*span));
+            if m.allowed.len() != 1 {
+                return Ok(Err("harness: export event is not decided".into()));
+            }
+            match m.allowed[0] {
+                Route::Dropped => expected_drops += 1,
+                r => {
+                    expected_exports.insert((ti as u64 + 1) * 1_000 + i as u64, r);
+                }
+            }
+        }
+    }
+    cx.class(&cfg.subset_label());
+    cx.class(&format!("concurrent-discards:threads-{}", case.threads.len()));
+    cx.class_if(dropping_threads >= 2, "concurrent-discards:>=2-threads-dropping");
+    cx.class_if(expected_drops >= 100_000, "concurrent-discards:>=100k-drops");
+    cx.class_if(!expected_exports.is_empty(), "concurrent-discards:with-exported-events");
+    cx.nontrivial(dropping_threads >= 2);
+
+    let before = otlp.metric_source().event_discarded();
+    let barrier = std::sync::Barrier::new(case.threads.len());
+    std::thread::scope(|scope| {
+        for (ti, t) in case.threads.iter().enumerate() {
+            let (otlp, barrier) = (&otlp, &barrier);
+            scope.spawn(move || {
+                let spec = t.shape.spec();
+                let exports = t.exports.len();
+                let mut next_export = 0;
+                let mut export = |n: &mut usize| {
+                    if *n < exports {
+                        emit_one(otlp, (ti as u64 + 1) * 1_000 + *n as u64, &export_spec(t.exports[*n]));
+                        *n += 1;
+                    }
+                };
+                barrier.wait();
+                export(&mut next_export);
+                // a tight loop over ONE prebuilt event: the drops of different threads really overlap
+                let kind = match &spec.kind {
+                    KindSpec::Typed { span: true } => Some(emit::Value::capture_display(&emit::Kind::Span)),
+                    KindSpec::Typed { span: false } => Some(emit::Value::capture_display(&emit::Kind::Metric)),
+                    KindSpec::Text(s) => Some(emit::Value::from(s.as_str())),
+                    _ => None,
+                };
+                let mut props: Vec<(&str, emit::Value)> = vec![("case_id", emit::Value::from(0u64))];
+                if let Some(k) = &kind {
+                    props.push((emit::well_known::KEY_EVT_KIND, k.by_ref()));
+                }
+                match &spec.value {
+                    ValueSpec::Text(s) => props.push((emit::well_known::KEY_METRIC_VALUE, emit::Value::from(s.as_str()))),
+                    ValueSpec::I64(i) => props.push((emit::well_known::KEY_METRIC_VALUE, emit::Value::from(*i))),
+                    _ => {}
+                }
+                let extent = match spec.extent {
+                    ExtentSpec::Point { secs } => Some(emit::Extent::point(ts(secs, 0))),
+                    _ => None,
+                };
+                let evt = emit::Event::new(emit::Path::new_raw("c14::drop"), emit::Template::literal("dropped"), extent, &props[..]);
+                for i in 0..t.drops {
+                    otlp.emit(&evt);
+                    if i == t.drops / 2 {
+                        export(&mut next_export);
+                    }
+                }
+                while next_export < exports {
+                    export(&mut next_export);
+                }
+            });
+        }
+    });
+    // every thread has joined: the counter is final
+    let counted = otlp.metric_source().event_discarded() - before;
+    let flush_ok = otlp.blocking_flush(Duration::from_secs(60));
+    let log = c.requests();
+    c.shutdown();
+    drop(otlp);
+
+    if counted != expected_drops {
+        cx.fail(
+            if counted < expected_drops { "discards-lost-under-concurrency" } else { "discards-overcounted-under-concurrency" },
+            format!(
+                "{} threads ({} of them dropping) emitted {expected_drops} events that no configured signal can take ({}), all threads have joined, yet event_discarded moved by {counted}; per thread: {:?}",
+                case.threads.len(),
+                dropping_threads,
+                cfg.subset_label(),
+                case.threads.iter().map(|t| (t.shape, t.drops, t.exports.len())).collect::<Vec<_>>()
+            ),
+        )?;
+    }
+    if !flush_ok {
+        cx.fail("flush-failed-with-acknowledging-collector", "blocking_flush(60 s) returned false although every request is acknowledged")?;
+    }
+    let mut found: BTreeMap<u64, Vec<Signal>> = BTreeMap::new();
+    for r in &log {
+        if let Some(e) = &r.decode_error {
+            cx.fail("request-body-does-not-decode", format!("request {} to {}: {e}", r.seq, r.path))?;
+        }
+        for rec in &r.records {
+            let id = rec.case_id.as_ref().and_then(|s| s.parse::<u64>().ok()).or_else(|| rec.name.strip_prefix('c').and_then(|s| s.parse().ok()));
+            match id {
+                Some(id) if expected_exports.contains_key(&id) => found.entry(id).or_default().push(rec.signal),
+                _ => cx.fail("unattributed-record", format!("{:?} record {:?} (case_id {:?}) belongs to no exported event of this case", rec.signal, rec.name, rec.case_id))?,
+            }
+        }
+    }
+    for (id, route) in &expected_exports {
+        let at = found.get(id).cloned().unwrap_or_default();
+        let ok = at.len() == 1 && route_of(at[0]) == *route;
+        if !ok {
+            cx.fail(
+                if at.is_empty() { "event-lost-although-a-signal-can-take-it" } else if at.len() > 1 { "exported-twice" } else { "exported-through-signal-that-contradicts-its-kind" },
+                format!("event {id} emitted concurrently with the drops: expected once at {route:?}, found at {at:?}"),
+            )?;
+        }
+    }
+    Ok(Ok(()))
+}
